@@ -1254,10 +1254,11 @@ condexpr(struct scope *s)
 
 	lt = l->type;
 	rt = r->type;
-	if (lt == rt) {
-		t = lt;
-	} else if (lt->prop & PROPARITH && rt->prop & PROPARITH) {
+	if (lt->prop & PROPARITH && rt->prop & PROPARITH) {
+		/* the usual arithmetic conversions apply even if both have the same type */
 		t = commonreal(&l, &r);
+	} else if (lt == rt) {
+		t = lt;
 	} else if (lt == &typevoid && rt == &typevoid) {
 		t = &typevoid;
 	} else {
